@@ -24,6 +24,8 @@ import (
 	"go/token"
 	"math/rand"
 	"os"
+	"os/exec"
+	"syscall"
 	"path"
 	"path/filepath"
 	"reflect"
@@ -869,23 +871,13 @@ func vVal(sb *strings.Builder, s *vSch, v reflect.Value) {
 		sb.WriteByte('#')
 		sb.WriteString(vHex(b))
 	case kArray:
-		sb.WriteString("(l")
-		for i := 0; i < v.Len(); i++ {
-			sb.WriteByte(' ')
-			vVal(sb, s.Elem, v.Index(i))
-		}
-		sb.WriteByte(')')
+		vValList(sb, s.Elem, v)
 	case kSlice:
 		if v.IsNil() {
 			sb.WriteByte('n')
 			return
 		}
-		sb.WriteString("(l")
-		for i := 0; i < v.Len(); i++ {
-			sb.WriteByte(' ')
-			vVal(sb, s.Elem, v.Index(i))
-		}
-		sb.WriteByte(')')
+		vValList(sb, s.Elem, v)
 	case kMap:
 		if v.IsNil() {
 			sb.WriteByte('n')
@@ -926,6 +918,45 @@ func vVal(sb *strings.Builder, s *vSch, v reflect.Value) {
 		}
 		sb.WriteByte(')')
 	}
+}
+
+// list elements; a run of >= 4 equal consecutive elements is written (x n elem) (expanded by the checker)
+func vValList(sb *strings.Builder, es *vSch, v reflect.Value) {
+	sb.WriteString("(l")
+	var prev string
+	run := 0
+	flush := func() {
+		if run == 0 {
+			return
+		}
+		if run >= 4 {
+			sb.WriteString(" (x ")
+			sb.WriteString(strconv.Itoa(run))
+			sb.WriteByte(' ')
+			sb.WriteString(prev)
+			sb.WriteByte(')')
+		} else {
+			for i := 0; i < run; i++ {
+				sb.WriteByte(' ')
+				sb.WriteString(prev)
+			}
+		}
+		run = 0
+	}
+	var eb strings.Builder
+	for i := 0; i < v.Len(); i++ {
+		eb.Reset()
+		vVal(&eb, es, v.Index(i))
+		cur := eb.String()
+		if run > 0 && cur == prev {
+			run++
+			continue
+		}
+		flush()
+		prev, run = cur, 1
+	}
+	flush()
+	sb.WriteByte(')')
 }
 
 const vHexDigits = "0123456789abcdef"
@@ -1799,6 +1830,391 @@ func vResize(st vSite, n int, budget int) bool {
 	return true
 }
 
+
+// ------------------------------------------------------------------------------------------
+// C41: every allocbound site of every schema, with WELL-FORMED collections of exactly bound and
+// bound+1 minimal elements, in every copy of the generated code (struct-from-map and
+// struct-from-array branch of every struct level inside the owning method)
+// ------------------------------------------------------------------------------------------
+
+var vNil = []byte{0xc0}
+
+func vHasReq(s *vSch) bool {
+	for _, f := range s.Fld {
+		if f.Req {
+			return true
+		}
+	}
+	return false
+}
+
+// smallest encoding that the decoder accepts for the type (zero value unless `required` fields force content)
+func vValidEnc(s *vSch, d int) []byte {
+	if d > 24 {
+		return vNil
+	}
+	switch s.K {
+	case kStruct:
+		if !vHasReq(s) {
+			return vNil
+		}
+		return vStructMap(s, nil, nil, d)
+	case kRef:
+		if s.Ref.Special != "" {
+			return vNil
+		}
+		return vValidEnc(s.Ref.Body, d+1)
+	}
+	return vNil
+}
+
+// small encoding of an accepted NON-zero value
+func vNonzeroEnc(s *vSch, d int) []byte {
+	if d > 24 {
+		return vNil
+	}
+	switch s.K {
+	case kUint, kInt:
+		return []byte{0x01}
+	case kBool:
+		return []byte{0xc3}
+	case kBytes:
+		return []byte{0xc4, 0x01, 0x61}
+	case kString:
+		return []byte{0xa1, 0x61}
+	case kFixBytes:
+		return []byte{0xc4, 0x01, 0x01}
+	case kArray:
+		return append([]byte{0x91}, vNonzeroEnc(s.Elem, d+1)...)
+	case kSlice:
+		return append([]byte{0x91}, vValidEnc(s.Elem, d+1)...)
+	case kMap:
+		k, _ := vKeyEnc(s.Key, 0)
+		return append(append([]byte{0x81}, k...), vValidEnc(s.Val, d+1)...)
+	case kPtr:
+		return vNonzeroEnc(s.Elem, d+1)
+	case kRef:
+		if s.Ref.Special != "" {
+			return []byte{0x01}
+		}
+		return vNonzeroEnc(s.Ref.Body, d+1)
+	case kStruct:
+		if vHasReq(s) || len(s.Fld) == 0 {
+			return vStructMap(s, nil, nil, d)
+		}
+		return vStructMap(s, s.Fld[0], vNonzeroEnc(s.Fld[0].S, d+1), d)
+	}
+	return vNil
+}
+
+// distinct map key number i
+func vKeyEnc(s *vSch, i int) ([]byte, bool) {
+	switch s.K {
+	case kUint:
+		if uint64(i) > s.Max {
+			return nil, false
+		}
+		return msgp.AppendUint64(nil, uint64(i)), true
+	case kInt:
+		return msgp.AppendInt64(nil, int64(i)), true
+	case kString:
+		return msgp.AppendString(nil, "k"+strconv.Itoa(i)), true
+	case kFixBytes, kBytes:
+		return []byte{0xc4, 0x03, byte(i >> 16), byte(i >> 8), byte(i)}, true
+	case kRef:
+		if s.Ref.Special != "" {
+			return msgp.AppendUint64(nil, uint64(i)), true
+		}
+		return vKeyEnc(s.Ref.Body, i)
+	}
+	return nil, false
+}
+
+// struct as a map: `required` fields with a non-zero value, plus target := inner
+func vStructMap(s *vSch, target *vField, inner []byte, d int) []byte {
+	var body []byte
+	n := 0
+	for _, f := range s.Fld {
+		var e []byte
+		switch {
+		case f == target:
+			e = inner
+		case f.Req:
+			e = vNonzeroEnc(f.S, d+1)
+		default:
+			continue
+		}
+		body = msgp.AppendString(body, f.Name)
+		body = append(body, e...)
+		n++
+	}
+	return append(msgp.AppendMapHeader(nil, uint32(n)), body...)
+}
+
+// struct as an array (declaration order): smallest accepted encoding for every other field, `required` fields non-zero
+func vStructArr(s *vSch, target *vField, inner []byte, d int) []byte {
+	byDecl := append([]*vField(nil), s.Fld...)
+	sort.Slice(byDecl, func(i, j int) bool { return byDecl[i].Decl < byDecl[j].Decl })
+	last := 0
+	for i, f := range byDecl {
+		if f == target || f.Req {
+			last = i + 1
+		}
+	}
+	body := msgp.AppendArrayHeader(nil, uint32(last))
+	for _, f := range byDecl[:last] {
+		switch {
+		case f == target:
+			body = append(body, inner...)
+		case f.Req:
+			body = append(body, vNonzeroEnc(f.S, d+1)...)
+		default:
+			// nil, unless the type has `required` fields (nil would fail the callee's required check)
+			body = append(body, vValidEnc(f.S, d+1)...)
+		}
+	}
+	return body
+}
+
+type vBoundSite struct {
+	name string
+	s    *vSch
+	wrap func([]byte) []byte
+}
+
+// collection of n minimal well-formed elements for the bounded node s (nil = not constructible / too large)
+func vCollection(s *vSch, n int, maxBytes int) []byte {
+	switch s.K {
+	case kBytes:
+		if n > maxBytes {
+			return nil
+		}
+		return msgp.AppendBytes(nil, bytes.Repeat([]byte{0x61}, n))
+	case kString:
+		if n > maxBytes {
+			return nil
+		}
+		return msgp.AppendString(nil, strings.Repeat("a", n))
+	case kSlice:
+		e := vValidEnc(s.Elem, 0)
+		if n*len(e) > maxBytes {
+			return nil
+		}
+		o := msgp.AppendArrayHeader(make([]byte, 0, 5+n*len(e)), uint32(n))
+		for i := 0; i < n; i++ {
+			o = append(o, e...)
+		}
+		return o
+	case kMap:
+		e := vValidEnc(s.Val, 0)
+		if n*(len(e)+4) > maxBytes {
+			return nil
+		}
+		o := msgp.AppendMapHeader(nil, uint32(n))
+		for i := 0; i < n; i++ {
+			k, ok := vKeyEnc(s.Key, i)
+			if !ok {
+				return nil
+			}
+			o = append(o, k...)
+			o = append(o, e...)
+		}
+		return o
+	}
+	return nil
+}
+
+func vHeaderOnly(s *vSch, n int) []byte {
+	switch s.K {
+	case kBytes:
+		return vHeader('b', uint64(n), 4)
+	case kString:
+		return vHeader('s', uint64(n), 4)
+	case kSlice:
+		return msgp.AppendArrayHeader(nil, uint32(n))
+	case kMap:
+		return msgp.AppendMapHeader(nil, uint32(n))
+	}
+	return nil
+}
+
+// every bounded node below s inside the method of `owner`; called types are entered once (done)
+func vEnumSites(s *vSch, name string, wrap func([]byte) []byte, done map[*vNamed]bool, d int, out *[]vBoundSite) {
+	if d > 40 {
+		return
+	}
+	switch s.K {
+	case kBytes, kString:
+		if s.Bound >= 0 {
+			*out = append(*out, vBoundSite{name, s, wrap})
+		}
+	case kSlice:
+		if s.Bound >= 0 {
+			*out = append(*out, vBoundSite{name, s, wrap})
+		}
+		if s.Bound != 0 {
+			vEnumSites(s.Elem, name+"[]", func(in []byte) []byte { return wrap(append([]byte{0x91}, in...)) }, done, d+1, out)
+		}
+	case kArray:
+		if s.N > 0 {
+			vEnumSites(s.Elem, name+"[0]", func(in []byte) []byte { return wrap(append([]byte{0x91}, in...)) }, done, d+1, out)
+		}
+	case kMap:
+		if s.Bound >= 0 {
+			*out = append(*out, vBoundSite{name, s, wrap})
+		}
+		if k, ok := vKeyEnc(s.Key, 0); ok && s.Bound != 0 {
+			vEnumSites(s.Val, name+"{}", func(in []byte) []byte { return wrap(append(append([]byte{0x81}, k...), in...)) }, done, d+1, out)
+		}
+	case kPtr:
+		vEnumSites(s.Elem, name, wrap, done, d+1, out)
+	case kRef:
+		if s.Ref.Special != "" || done[s.Ref] {
+			return
+		}
+		done[s.Ref] = true
+		vEnumSites(s.Ref.Body, s.Ref.Name, wrap, done, d+1, out)
+	case kStruct:
+		for _, f := range s.Fld {
+			f := f
+			vEnumSites(f.S, name+"."+f.Name+"<map>", func(in []byte) []byte { return wrap(vStructMap(s, f, in, 0)) }, done, d+1, out)
+		}
+		for _, f := range s.Fld {
+			f := f
+			if f.S.K == kRef {
+				continue // the callee's code is the same whichever branch calls it
+			}
+			vEnumSites(f.S, name+"."+f.Name+"<arr>", func(in []byte) []byte { return wrap(vStructArr(s, f, in, 0)) }, done, d+1, out)
+		}
+	}
+}
+
+// ------------------------------------------------------------------------------------------
+// Root types with a slice / map declared `allocbound=-`: the generated decoder calls make([]T, n) with
+// the length prefix before reading any element, so a few input bytes can request > 100 GB and the Go
+// runtime dies ("fatal error: runtime: out of memory": not a panic, cannot be recovered).  Inputs for
+// these root types are therefore decoded in a child process (same test binary) with a 16 GiB address
+// space limit; a child that dies on input k is an observation "(panic ...)" for input k.
+// ------------------------------------------------------------------------------------------
+
+func vHasUnbounded(s *vSch, seen map[*vNamed]bool) bool {
+	switch s.K {
+	case kSlice:
+		return s.Bound < 0 || vHasUnbounded(s.Elem, seen)
+	case kMap:
+		return s.Bound < 0 || vHasUnbounded(s.Key, seen) || vHasUnbounded(s.Val, seen)
+	case kArray, kPtr:
+		return vHasUnbounded(s.Elem, seen)
+	case kRef:
+		if s.Ref.Special != "" || seen[s.Ref] {
+			return false
+		}
+		seen[s.Ref] = true
+		return vHasUnbounded(s.Ref.Body, seen)
+	case kStruct:
+		for _, f := range s.Fld {
+			if vHasUnbounded(f.S, seen) {
+				return true
+			}
+		}
+	}
+	return false
+}
+
+type vPending struct {
+	root int
+	kind string
+	in   []byte
+}
+
+// TestVerifC41Child decodes the inputs of VERIF_C41_CHILD_IN (lines "rootIndex hex") from line
+// VERIF_C41_CHILD_FROM on and appends one outcome term per input to VERIF_C41_CHILD_OUT.
+func TestVerifC41Child(t *testing.T) {
+	inPath := os.Getenv("VERIF_C41_CHILD_IN")
+	if inPath == "" {
+		t.Skip("child mode only")
+	}
+	lim := syscall.Rlimit{Cur: 16 << 30, Max: 16 << 30}
+	_ = syscall.Setrlimit(syscall.RLIMIT_AS, &lim)
+	_, roots, tmpls := vHarnessWalker(t)
+	from, _ := strconv.Atoi(os.Getenv("VERIF_C41_CHILD_FROM"))
+	raw, err := os.ReadFile(inPath)
+	if err != nil {
+		t.Fatal(err)
+	}
+	out, err := os.OpenFile(os.Getenv("VERIF_C41_CHILD_OUT"), os.O_APPEND|os.O_CREATE|os.O_WRONLY, 0644)
+	if err != nil {
+		t.Fatal(err)
+	}
+	defer out.Close()
+	for i, line := range strings.Split(strings.TrimSpace(string(raw)), "\n") {
+		if i < from {
+			continue
+		}
+		parts := strings.SplitN(line, " ", 2)
+		ri, _ := strconv.Atoi(parts[0])
+		b := make([]byte, len(parts[1])/2)
+		for j := range b {
+			v, _ := strconv.ParseUint(parts[1][2*j:2*j+2], 16, 8)
+			b[j] = byte(v)
+		}
+		o := vDecode(tmpls[ri], b)
+		if _, err := out.WriteString(vOutTerm(roots[ri], o) + "\n"); err != nil {
+			t.Fatal(err)
+		}
+	}
+}
+
+// run the pending inputs in child processes; returns one outcome term per input
+func vRunChildren(t *testing.T, pend []vPending) []string {
+	dir := os.Getenv("VERIF_OUT")
+	if dir == "" {
+		dir = os.TempDir()
+	}
+	inPath, outPath := filepath.Join(dir, "child_in.txt"), filepath.Join(dir, "child_out.txt")
+	var sb strings.Builder
+	for _, p := range pend {
+		sb.WriteString(strconv.Itoa(p.root))
+		sb.WriteByte(' ')
+		sb.WriteString(vHex(p.in))
+		sb.WriteByte('\n')
+	}
+	if err := os.WriteFile(inPath, []byte(sb.String()), 0644); err != nil {
+		t.Fatal(err)
+	}
+	os.Remove(outPath)
+	var res []string
+	for len(res) < len(pend) {
+		cmd := exec.Command(os.Args[0], "-test.run", "^TestVerifC41Child$", "-test.count", "1")
+		cmd.Env = append(os.Environ(), "VERIF_C41_CHILD_IN="+inPath, "VERIF_C41_CHILD_OUT="+outPath,
+			"VERIF_C41_CHILD_FROM="+strconv.Itoa(len(res)))
+		msg, runErr := cmd.CombinedOutput()
+		raw, _ := os.ReadFile(outPath)
+		lines := strings.Split(strings.TrimSpace(string(raw)), "\n")
+		if len(raw) == 0 {
+			lines = nil
+		}
+		progressed := len(lines) > len(res)
+		res = lines
+		if len(res) >= len(pend) {
+			break
+		}
+		if runErr == nil && !progressed {
+			t.Fatalf("child made no progress: %s", msg)
+		}
+		if runErr != nil {
+			// the child died while decoding input number len(res)
+			first := strings.SplitN(strings.TrimSpace(string(msg)), "\n", 2)[0]
+			term := "(panic #" + vHex([]byte("child process died: "+first)) + ")"
+			f, _ := os.OpenFile(outPath, os.O_APPEND|os.O_CREATE|os.O_WRONLY, 0644)
+			f.WriteString(term + "\n")
+			f.Close()
+			res = append(res, term)
+		}
+	}
+	return res
+}
+
 func TestVerifC41(t *testing.T) {
 	_, roots, tmpls := vHarnessWalker(t)
 	r := vNewRand(0xC41)
@@ -1813,8 +2229,20 @@ func TestVerifC41(t *testing.T) {
 	outcomes := map[string]int{}
 	lax := &vLax{r: r, uses: map[string]int{}}
 	total := 0
+	var siteStats map[string]interface{}
+	unsafeRoot := map[*vNamed]int{}
+	for i, n := range roots {
+		if vHasUnbounded(n.Body, map[*vNamed]bool{n: true}) {
+			unsafeRoot[n] = i
+		}
+	}
+	var pending []vPending
 	emitFor := func(n *vNamed, tmpl vCodec) func(kind string, b []byte) {
 		return func(kind string, b []byte) {
+			if ri, bad := unsafeRoot[n]; bad {
+				pending = append(pending, vPending{ri, kind, append([]byte(nil), b...)})
+				return
+			}
 			o := vDecode(tmpl, b)
 			switch {
 			case o.panic != "":
@@ -1895,6 +2323,43 @@ func TestVerifC41(t *testing.T) {
 			}
 		}
 	}
+	// every allocbound site of every schema: exactly bound / bound+1 well-formed minimal elements, and
+	// the header alone; every struct level of the owning method in its map and its array branch
+	{
+		siteMax := vEnvInt("VERIF_C41_SITEBYTES", 4000000)
+		done := map[*vNamed]bool{}
+		nSites, nAccepted := 0, 0
+		var skipped, rejected []string
+		for i, n := range roots {
+			emit := emitFor(n, tmpls[i])
+			var bs []vBoundSite
+			if !done[n] {
+				done[n] = true
+				vEnumSites(n.Body, n.Name, func(in []byte) []byte { return in }, done, 0, &bs)
+			}
+			for _, st := range bs {
+				nSites++
+				bound := int(st.s.Bound)
+				at := vCollection(st.s, bound, siteMax)
+				over := vCollection(st.s, bound+1, siteMax)
+				if at == nil || over == nil {
+					skipped = append(skipped, st.name)
+				} else {
+					in := st.wrap(at)
+					if vDecode(tmpls[i], in).ok {
+						nAccepted++
+					} else {
+						rejected = append(rejected, st.name)
+					}
+					emit("site-at-bound", in)
+					emit("site-over-bound", st.wrap(over))
+				}
+				emit("site-header-only", st.wrap(vHeaderOnly(st.s, bound+1)))
+			}
+		}
+		siteStats = map[string]interface{}{"sites": nSites, "at_bound_accepted": nAccepted,
+			"at_bound_rejected_for_other_reasons": rejected, "skipped_too_large_or_unbuildable": skipped}
+	}
 	// random byte strings
 	for i, n := range roots {
 		emit := emitFor(n, tmpls[i])
@@ -1959,7 +2424,35 @@ func TestVerifC41(t *testing.T) {
 			emit("dup-key-merge", append(append([]byte{0x82}, e1[1:]...), e2[1:]...))
 		}
 	}
-	st := map[string]interface{}{"kinds": kinds, "outcomes": outcomes, "total": total, "lax_choices": lax.uses}
+	// the witness of the unbounded-length finding: {"l": array32 header 2^31-1} for trackerdb.TxTailRound
+	for n, ri := range unsafeRoot {
+		if n.Name == "trackerdb.TxTailRound" {
+			pending = append(pending, vPending{ri, "unbounded-length-prefix", []byte{0x81, 0xa1, 'l', 0xdd, 0x7f, 0xff, 0xff, 0xff}})
+		}
+	}
+	if len(pending) > 0 {
+		res := vRunChildren(t, pending)
+		for i, p := range pending {
+			switch {
+			case strings.HasPrefix(res[i], "(panic"):
+				outcomes["panic"]++
+			case strings.HasPrefix(res[i], "(ok"):
+				outcomes["ok"]++
+			default:
+				outcomes["err"]++
+			}
+			kinds[p.kind]++
+			total++
+			out.Line("(dec " + roots[p.root].Name + " #" + vHex(p.in) + " " + res[i] + " " + strings.ReplaceAll(strings.ReplaceAll(p.kind, "-", "_"), "+", "_") + ")")
+		}
+	}
+	var unsafeNames []string
+	for n := range unsafeRoot {
+		unsafeNames = append(unsafeNames, n.Name)
+	}
+	sort.Strings(unsafeNames)
+	st := map[string]interface{}{"kinds": kinds, "outcomes": outcomes, "total": total, "lax_choices": lax.uses, "allocbound_sites": siteStats,
+		"roots_decoded_in_child_process": unsafeNames}
 	vStats(st)
 	if outcomes["panic"] > 0 {
 		t.Logf("C41: %d inputs made a panic escape protocol.Decode", outcomes["panic"])
